@@ -617,6 +617,8 @@ class FileGen:
             return "%s %s" % (rng.choice(ONE_OP[:20]), rng.choice([r1, "(%s)" % r1, "(%s)+" % r1, "-(%s)" % r1]))
         e = self.expr("word", allow_positional=False)
         v = e.text if e.atomic else angle(e.text)
+        if self.all_labels() and rng.random() < 0.25:
+            v = rng.choice(self.all_labels())       # a label (possibly defined after the loop)
         if k < 0.75:
             return "%s #%s, %s" % (rng.choice(TWO_OP), v, r2)
         return "%s %s, @#%s" % (rng.choice(TWO_OP), r1, v)
